@@ -22,7 +22,7 @@ class Record:
     __slots__ = ('status', 'trace', 'outcomes', 'decisions', 'steps', 'ticks', 'vtime', 'leftover',
                  'after_done_handles', 'fault_hits', 'max_pending', 'out_of_order', 'digest',
                  'input_after', 'snap_before', 'snap_after', 'sched', 'done_seq', 'exc_reports',
-                 'complete_results', 'results', 'gate_count', 'snaps', 'pending_nodes', 'probes', 'max_lag')
+                 'complete_results', 'results', 'gate_count', 'snaps', 'pending_nodes', 'probes', 'max_lag', 'pending_at_end')
 
     def __init__(self):
         for s in self.__slots__:
@@ -134,6 +134,7 @@ def run_case(case: dict, scheduler, set_seed: int = 0, step_cap: int = 20000, ke
         rec.out_of_order = sim.out_of_order
         rec.gate_count = sim.gate_count
         rec.max_lag = sim.max_lag
+        rec.pending_at_end = sim.pending_at_end
         rec.input_after = inputs
         rec.done_seq = sim.done_seq
         rec.exc_reports = sim.loop.exc_reports
